@@ -39,25 +39,34 @@ pub fn any_op() -> Operation {
 }
 
 pub fn state_index(s: State) -> u8 {
-    let mut i = 0;
-    while i < 13 {
-        if STATES[i] == s {
-            return i as u8;
-        }
-        i += 1;
+    match s {
+        State::Unconfigured => 0,
+        State::ConfigInProgress => 1,
+        State::ConfigReceived => 2,
+        State::ConfigFailed => 3,
+        State::PixelsInProgress => 4,
+        State::PixelsReceived => 5,
+        State::PixelsFailed => 6,
+        State::PageLoaded => 7,
+        State::PageLoadInProgress => 8,
+        State::PageShown => 9,
+        State::PageShowInProgress => 10,
+        State::ShowingPages => 11,
+        State::ReadyToReset => 12,
+        _ => 255,
     }
-    255
 }
 
 pub fn op_index(o: Operation) -> u8 {
-    let mut i = 0;
-    while i < 6 {
-        if OPS[i] == o {
-            return i as u8;
-        }
-        i += 1;
+    match o {
+        Operation::ReceiveConfig => 0,
+        Operation::ReceivePixels => 1,
+        Operation::ShowLoadedPage => 2,
+        Operation::LoadNextPage => 3,
+        Operation::StartReset => 4,
+        Operation::FinishReset => 5,
+        _ => 255,
     }
-    255
 }
 
 /// Any message that carries no heap data (every kind except SendData / Unknown).
@@ -88,7 +97,15 @@ pub fn any_message_of_kind<const K: u8>() -> Message<'static> {
         4 => Message::RequestOperation(a, any_op()),
         5 => Message::AckOperation(a, any_op()),
         6 => Message::PixelsComplete(a),
-        _ => Message::Goodbye(a),
+        7 => Message::Goodbye(a),
+        // 10..=15: an operation request with a CONCRETE operation (a symbolic operation makes the
+        // frame's data pointer symbolic, which the encoder harnesses cannot afford)
+        10 => Message::RequestOperation(a, Operation::ReceiveConfig),
+        11 => Message::RequestOperation(a, Operation::ReceivePixels),
+        12 => Message::RequestOperation(a, Operation::ShowLoadedPage),
+        13 => Message::RequestOperation(a, Operation::LoadNextPage),
+        14 => Message::RequestOperation(a, Operation::StartReset),
+        _ => Message::RequestOperation(a, Operation::FinishReset),
     }
 }
 
